@@ -207,7 +207,17 @@ def explore(tier, seed, model_ok=True, focus=False):
     # permissions / pausable modules over histories (effect of grant / revoke sequences; revoked keepers)
     from props import perm_common as pc
     ex = pc.merge(ex, pc.explore_perm("C19", tier, seed, model_ok, focus))
+    # the on-behalf endpoints of farm-staking-proxy (stakeFarmOnBehalf / claimDualYieldOnBehalf) on the closed composition of
+    # C15's world: who may call, whose positions, and where BOTH farms' rewards (LP-farm boosted rewards included) go
+    from props import meta_closed_common as mcc
+    exm = mcc.explore_meta_closed("C19", tier, seed, model_ok=False, focus=focus)
+    exm.failures = [f for f in exm.failures if keys_c19_meta(f["key"])]
+    ex = mcc.merge(ex, exm)
     return ex
+
+
+def keys_c19_meta(key):
+    return key.startswith(("ob-", "hub-view-vs-storage", "monitor-cannot-evaluate"))
 
 
 def replay(data):
@@ -219,6 +229,9 @@ def replay(data):
     if rp.get("system") == "perm":
         from props import perm_common as pc
         return pc.replay_perm(data)
+    if rp.get("system") == "meta_closed":
+        from props import meta_closed_common as mcc
+        return [f for f in mcc.replay_meta_closed(data) if keys_c19_meta(f["key"])]
     if rp.get("system") == "behalf":
         from props import behalf_common as bc
         return bc.replay_behalf(data, bc.keys_c19)
